@@ -29,6 +29,10 @@ ASSUMPTIONS = [
     "the lexer reads its source only forward, so (source, _position) is modelled as (total length, unread suffix)",
     "error positions of rejected texts are not compared (only 0 <= position <= len and that rendering succeeds)",
     "bytes input is compared only for texts that have a UTF-8 encoding (no lone surrogates)",
+    "bytes sources that are not valid UTF-8 must be rejected with GraphQLSyntaxError (position = character offset of the first "
+    "undecodable byte inside the U+FFFD-replaced text, fix C01-B8); decoding itself is not modelled in Lean (only exercised)",
+    "optional `{...}` blocks of type-system definitions are read greedily ([lookahead != {], as graphql-js and the 2021 text): the literal "
+    "June-2018 grammar is ambiguous there (`type A {b}`); Spec/Grammar.lean takes the greedy reading explicitly (blockV / nla) - known finding LA2",
     "source types: the documented signature is Union[str, bytes]; instances of subclasses of str / bytes are in scope (duck typing), "
     "bytearray / memoryview are not (today: TypeError) - their outcome is only recorded in the evidence",
 ]
@@ -705,6 +709,8 @@ def run(ctx):
     oracle_single_lexemes(ctx, lexs, "generated")
     oracle_number_lookahead(ctx, rng)
     oracle_comments(ctx, rng)
+    oracle_invalid_utf8(ctx, rng)
+    oracle_blockless_definitions(ctx)
 
     # --- mutants and prefixes -----------------------------------------------------------------
     base = [a for _, a, _ in rendered[: ctx.n(40, 300)]]
@@ -928,6 +934,119 @@ def oracle_source_types(ctx, rng, texts):
     for name, mk in (("bytearray", bytearray), ("memoryview", memoryview)):
         r = PP.real_parse(mk(b"{a}"), "document", FLAG0)
         ctx.extra["undocumented_source_type:%s" % name] = r[0]
+
+
+INVALID_UTF8 = [
+    ("lone-continuation", b"\x80"), ("lone-continuation", b"\xbf"), ("truncated-2", b"\xc3"), ("truncated-3", b"\xe2\x82"),
+    ("truncated-4", b"\xf0\x9f\x98"), ("overlong-2", b"\xc0\x80"), ("overlong-2", b"\xc1\xbf"), ("overlong-3", b"\xe0\x80\x80"),
+    ("overlong-4", b"\xf0\x80\x80\x80"), ("surrogate", b"\xed\xa0\x80"), ("surrogate", b"\xed\xbf\xbf"), ("ff", b"\xff"), ("fe", b"\xfe"),
+    ("beyond-10ffff", b"\xf4\x90\x80\x80"), ("f5", b"\xf5\x80\x80\x80"), ("bad-continuation", b"\xc3\x28"), ("bad-continuation", b"\xe2\x28\xa1"),
+]
+
+
+def real_bytes_contract(entry, src):
+    """('ok',) | ('syntax', problem or None) | ('internal', Class) for a raw bytes source through one entry point"""
+    from py_gql.lang import parser as P
+    from py_gql.lang.lexer import Lexer
+    from py_gql.exc import GraphQLSyntaxError
+    fn = {"document": lambda b: P.parse(b, allow_type_system=True), "value": P.parse_value, "type": P.parse_type,
+          "lexer": lambda b: list(Lexer(b)), "parser": lambda b: P.Parser(b).parse_document()}[entry]
+    try:
+        fn(src)
+        return ("ok",)
+    except GraphQLSyntaxError as e:
+        problem = None
+        if not isinstance(e.source, str):
+            problem = "source-is-%s" % type(e.source).__name__
+        elif not (isinstance(e.position, int) and 0 <= e.position <= len(e.source)):
+            problem = "position-out-of-range"
+        else:
+            for what, f in (("str", lambda: str(e)), ("highlighted", lambda: e.highlighted), ("to_dict", lambda: e.to_dict())):
+                try:
+                    f()
+                except Exception as x:  # noqa
+                    problem = "%s:%s" % (what, type(x).__name__)
+                    break
+        return ("syntax", problem)
+    except RecursionError:
+        return ("internal", "RecursionError")
+    except Exception as x:  # noqa
+        return ("internal", type(x).__name__)
+
+
+def oracle_invalid_utf8(ctx, rng):
+    """bytes that are NOT valid UTF-8 (lone continuation bytes, truncated sequences, overlongs, UTF-8 encoded surrogates,
+    0xFF/0xFE, > U+10FFFF) at the start / in the middle / at the end, inside strings and comments: every entry point
+    documented `Union[str, bytes]` rejects them with the library's syntax error, which can be rendered."""
+    frames = [(b"", b""), (b"", b"{ a }"), (b"{ a }", b""), (b"{ a ", b" }"), (b'{ a(b: "', b'") }'), (b'{ a(b: "x', b'y") }'), (b"# c ", b"\n{ a }"),
+              (b'"""', b'""" type A { a: Int }'), (b"{ a } # ", b""), ('{ a(b: "\xe9\U0001F600") } '.encode("utf8"), b""), (b"[1, ", b"]"), (b"[Int", b"]")]
+    for label, bad in INVALID_UTF8:
+        for pre, post in frames:
+            src = pre + bad + post
+            try:
+                src.decode("utf8")
+                continue            # (not invalid after all)
+            except UnicodeDecodeError:
+                pass
+            for entry in ("document", "value", "type", "lexer", "parser"):
+                for variant, b in (("bytes", src), ("bytes-subclass", _BytesSub(src))):
+                    if variant == "bytes-subclass" and rng.random() < 0.7:
+                        continue
+                    ctx.count()
+                    r = real_bytes_contract(entry, b)
+                    ctx.stat("invalid-utf8:%s" % r[0])
+                    where = "start" if not pre else "end" if not post else "middle"
+                    if r[0] == "internal":
+                        ctx.fail("invalid-utf8-bytes:%s" % r[1],
+                                 "a bytes source that is not valid UTF-8 raises %s instead of the syntax error" % r[1],
+                                 {"part": PART, "kind": "invalid_utf8", "bytes": list(src), "entry": entry, "class": label, "where": where})
+                    elif r[0] == "ok":
+                        ctx.fail("invalid-utf8-bytes:accepted:%s" % label, "a bytes source that is not valid UTF-8 is accepted",
+                                 {"part": PART, "kind": "invalid_utf8", "bytes": list(src), "entry": entry, "class": label, "where": where})
+                    elif r[1]:
+                        ctx.fail("invalid-utf8-bytes:render:%s" % r[1], "the syntax error for invalid UTF-8 cannot be rendered / has no position in its text",
+                                 {"part": PART, "kind": "invalid_utf8", "bytes": list(src), "entry": entry, "class": label, "where": where})
+                    else:
+                        ctx.nontrivial(("badutf8", entry, src))
+
+
+BLOCKLESS_CASES = [
+    # (glued text, the same with an explicit `query` keyword before the brace, flags)
+    ("type A {b}", "type A query {b}"), ("interface A {b}", "interface A query {b}"), ("input A {b}", "input A query {b}"),
+    ("extend type A @d {b}", "extend type A @d query {b}"), ("enum A {...F}", "enum A query {...F}"),
+    ("extend interface A @d {b}", "extend interface A @d query {b}"), ("extend input A @d {b}", "extend input A @d query {b}"),
+    ("extend enum A @d {...F}", "extend enum A @d query {...F}"), ("type A implements B {b}", "type A implements B query {b}"),
+]
+
+
+def oracle_blockless_definitions(ctx):
+    """June 2018 has no `[lookahead != {]` on the optional `{...}` blocks of type-system definitions, so `type A {b}` ALSO
+    derives as the block-less definition `type A` followed by the query shorthand `{b}`. The library (like graphql-js and the
+    2021 text) reads the brace greedily as the definition's own block and rejects - known finding LA2; the grammar
+    specification (Spec/Grammar.lean `blockV` / `nla`) takes the same greedy reading explicitly. Siblings without an optional
+    block (`scalar A {b}`, `union A = B {b}`) must still be accepted as two definitions."""
+    from corr import C01_parse as PP
+    fl = {"no_location": True, "allow_type_system": True, "experimental_fragment_variables": False}
+    for glued, keyworded in BLOCKLESS_CASES:
+        ctx.count()
+        a, b = PP.real_parse(glued, "document", fl), PP.real_parse(keyworded, "document", fl)
+        ctx.stat("blockless:%s" % a[0])
+        if a[0].startswith("internal") or b[0] != "ok":
+            ctx.fail("internal:%s:blockless" % a[0], "parser misbehaves on a block-less definition followed by a selection set",
+                     {"part": PART, "kind": "blockless", "text": cps(glued), "keyworded": cps(keyworded)})
+        elif a[0] == "syntax":
+            ctx.fail("june2018-ambiguity:blockless-definition-before-brace",
+                     "a block-less type-system definition directly followed by a shorthand query is rejected (greedy `{`)",
+                     {"part": PART, "kind": "blockless", "text": cps(glued), "keyworded": cps(keyworded)})
+        elif len(a[1].definitions) != 2:
+            ctx.fail("blockless-definition-tree-differs", "glued text accepted but not as the two definitions",
+                     {"part": PART, "kind": "blockless", "text": cps(glued), "keyworded": cps(keyworded)})
+    for t in ("scalar A {b}", "union A = B {b}", "scalar A @d {b}", "directive @d on FIELD {b}", "schema { query: Q } {b}"):
+        ctx.count()
+        r = PP.real_parse(t, "document", fl)
+        if r[0] != "ok" or len(r[1].definitions) != 2:
+            ctx.fail("definition-then-shorthand-rejected:%s" % t.split()[0], "a definition without optional block followed by a shorthand query is not two definitions",
+                     {"part": PART, "kind": "two_definitions", "text": cps(t)})
 
 
 def oracle_bytes(ctx, texts):
@@ -1178,6 +1297,14 @@ def replay(ctx, data):
     r = real_lex(text)
     if kind == "bytes":
         return real_lex(text) == real_lex(text.encode("utf8"))
+    if kind == "invalid_utf8":
+        r = real_bytes_contract(inp.get("entry", "document"), bytes(inp.get("bytes", [])))
+        return r[0] == "syntax" and not r[1]
+    if kind in ("blockless", "two_definitions"):
+        from corr import C01_parse as PP
+        fl = {"no_location": True, "allow_type_system": True, "experimental_fragment_variables": False}
+        q = PP.real_parse(text, "document", fl)
+        return q[0] == "ok" and len(q[1].definitions) == 2
     if kind == "source_type":
         from corr import C01_parse as PP
         src = dict(source_variants(text)).get(inp.get("variant"))
